@@ -192,10 +192,21 @@ class Run:
                     c = json.loads(line)
                     cases.append((c["op"], c["args"]))
         ncorpus = len(cases)
-        for c in p.gen_cases(rng, n):
-            cases.append(c)
-            if len(cases) >= n + ncorpus:
-                break
+        reals = {}
+        shards = 1 if n < 20000 else min(14, os.cpu_count() or 1)
+        if shards == 1:
+            for c in p.gen_cases(rng, n):
+                cases.append(c)
+                if len(cases) >= n + ncorpus:
+                    break
+        else:
+            import multiprocessing as mp
+            with mp.get_context("fork").Pool(shards) as pool:
+                parts = pool.map(_corr_shard, [(p.id, self.seed * 1000003 + 1 + 104729 * (k + 1), n // shards) for k in range(shards)])
+            for part in parts:
+                for op, args, r in part:
+                    reals[len(cases)] = r
+                    cases.append((op, args))
         if not cases:
             self.cov["correspondence"] = {"cases": 0}
             return
@@ -209,11 +220,14 @@ class Run:
         distinct = set()
         mismatches = []
         samples = []
-        for (op, args), line, m in zip(cases, lines, model):
-            try:
-                r = p.real(op, args)
-            except Exception as e:  # the harness glue itself failed: never a verdict, but never silent
-                r = "harness-error " + type(e).__name__ + ": " + str(e)[:120]
+        for idx, ((op, args), line, m) in enumerate(zip(cases, lines, model)):
+            if idx in reals:
+                r = reals[idx]
+            else:
+                try:
+                    r = p.real(op, args)
+                except Exception as e:  # the harness glue itself failed: never a verdict, but never silent
+                    r = "harness-error " + type(e).__name__ + ": " + str(e)[:120]
             dist[p.branch(op, args, r)] += 1
             if p.nontrivial(op, args, r):
                 distinct.add(line)
@@ -281,24 +295,18 @@ class Run:
     # 5: laws on the real code
     def laws(self, n):
         p = self.prop
-        rng = random.Random(self.seed * 1000003 + 2)
-        count = 0
-        per_law = Counter()
-        fails = []
-        samples = []
-        for law, inp in p.gen_laws(rng, n):
-            count += 1
-            per_law[law] += 1
-            try:
-                ok, detail = p.check_law(law, inp)
-            except Exception as e:
-                ok, detail = False, "harness-error " + type(e).__name__ + ": " + str(e)[:200]
-            if not ok:
-                fails.append((law, inp, detail))
-            elif len(samples) < 4 and rng.random() < 0.005:
-                samples.append({"law": law, "input": inp})
-            if count >= n:
-                break
+        shards = 1 if n < 20000 else min(14, os.cpu_count() or 1)
+        if shards == 1:
+            count, per_law, fails, samples = _law_shard((p.id, self.seed * 1000003 + 2, n))
+        else:
+            import multiprocessing as mp
+            with mp.get_context("fork").Pool(shards) as pool:
+                parts = pool.map(_law_shard, [(p.id, self.seed * 1000003 + 2 + 7919 * (k + 1), n // shards) for k in range(shards)])
+            count = sum(x[0] for x in parts)
+            per_law = Counter()
+            fails, samples = [], []
+            for x in parts:
+                per_law.update(x[1]); fails += x[2]; samples += x[3][:1]
         self.cov["laws"] = {"evaluated": count, "per_law": dict(per_law), "failures": len(fails)}
         self.cov.setdefault("samples", []).extend(samples)
         seen = set()
@@ -401,6 +409,52 @@ class Run:
         core.EVIDENCE.mkdir(exist_ok=True)
         (core.EVIDENCE / f"{p.id}.json").write_text(json.dumps(ev, indent=1, default=str))
         return 1 if viol_lines else 0
+
+
+def _law_shard(arg):
+    """evaluate n generated law instances (own PRNG stream); top-level so that it can run in a worker process"""
+    pid, seed, n = arg
+    p = load_prop(pid)
+    mod = sys.modules.get(type(p).__module__)
+    if mod is not None and getattr(mod, "_drv", None) is not None and os.getpid() != getattr(mod, "_drv_pid", os.getpid()):
+        mod._drv = None            # never share a driver pipe with the parent process
+    rng = random.Random(seed)
+    count = 0
+    per_law = Counter()
+    fails, samples = [], []
+    for law, inp in p.gen_laws(rng, n):
+        count += 1
+        per_law[law] += 1
+        try:
+            ok, detail = p.check_law(law, inp)
+        except Exception as e:
+            ok, detail = False, "harness-error " + type(e).__name__ + ": " + str(e)[:200]
+        if not ok:
+            if len(fails) < 200:
+                fails.append((law, inp, detail))
+        elif len(samples) < 4 and rng.random() < 0.005:
+            samples.append({"law": law, "input": inp})
+        if count >= n:
+            break
+    return count, per_law, fails, samples
+
+
+def _corr_shard(arg):
+    """generate n correspondence cases and the implementation's answers (own PRNG stream)"""
+    pid, seed, n = arg
+    p = load_prop(pid)
+    rng = random.Random(seed)
+    out = []
+    for c in p.gen_cases(rng, n):
+        op, args = c
+        try:
+            r = p.real(op, args)
+        except Exception as e:
+            r = "harness-error " + type(e).__name__ + ": " + str(e)[:120]
+        out.append((op, args, r))
+        if len(out) >= n:
+            break
+    return out
 
 
 def _is_atom(a):
